@@ -31,8 +31,9 @@ def graph(ctx, g, cls, w, x, maxrest):
 def behaviours(ctx, g, cls, w, x, depth):
     """every history of length `depth` with the outcome classes the specification allows"""
     c = consts_for(g, cls, w, x, depth, True, depth)
+    # one worker: the behaviours are printed by TLC, and lines printed by several workers could interleave
     res = ctx.mc("MC_History", cfg(spec="HSpec", constants=c, invariants=INVS + ["Emit"]),
-                 label="MC_History/paths[%s,%s,w=%d,x=%d,depth=%d]" % (g, cls, w, x, depth))
+                 label="MC_History/paths[%s,%s,w=%d,x=%d,depth=%d]" % (g, cls, w, x, depth), workers=1)
     allowed = {}
     for m in re.finditer(r'^"HIST (.*)"$', res["out"], re.M):
         h = json.loads(json.loads('"' + m.group(1) + '"'))
